@@ -735,6 +735,17 @@ pub fn gen_faulty(r: &mut Rng, sid: String) -> Scenario {
     Scenario { sid, conns, steps, fair: false }
 }
 
+/// Pad of a single-call client in the fairness scenarios: mostly short, sometimes (production constants) a call
+/// of 17..120 growth steps.
+fn fair_pad(r: &mut Rng) -> usize {
+    let step = crate::buffer_step();
+    if crate::buffer_max() >= 1 << 20 && r.chance(1, 4) {
+        r.range(17 * step, 120 * step)
+    } else {
+        r.range(0, 10)
+    }
+}
+
 /// C18: flooders (all calls available at once) next to single-call clients that show up at
 /// arbitrary moments; whole frames only.
 pub fn gen_fair(r: &mut Rng, sid: String, transitions: bool) -> Scenario {
@@ -759,7 +770,8 @@ pub fn gen_fair(r: &mut Rng, sid: String, transitions: bool) -> Scenario {
                 })
                 .collect()
         } else {
-            (0..r.range(1, 2)).map(|_| Kind::Plain(r.range(0, 10))).collect()
+            // (now and then a call of many growth steps: it is complete and waiting all the same)
+            (0..r.range(1, 2)).map(|_| Kind::Plain(fair_pad(r))).collect()
         };
         conns.push(ConnScript { calls, faulty: false, fail_write_at: 0, fail_once: false, fail_deliver: 0 });
     }
@@ -820,7 +832,7 @@ pub fn gen_fair_mixed(r: &mut Rng, sid: String) -> Scenario {
                     _ => Kind::Plain(0),
                 })
                 .collect(),
-            1 => (0..r.range(1, 3)).map(|_| Kind::Plain(r.range(0, 10))).collect(),
+            1 => (0..r.range(1, 3)).map(|_| Kind::Plain(fair_pad(r))).collect(),
             _ => vec![Kind::Stream(r.below(3) as u32, true)],
         };
         conns.push(ConnScript { calls, faulty: false, fail_write_at: 0, fail_once: false, fail_deliver: 0 });
